@@ -94,14 +94,14 @@ ComposeVerdict(c) ==
 RechunkShapes(p) ==
   CASE p = "q1d" -> {<<n>> : n \in 1..6}
     [] p = "q2d" -> {<<2, 3>>, <<3, 4>>, <<4, 4>>, <<1, 5>>, <<5, 2>>}
-    [] p = "t1d" -> {<<n>> : n \in 1..8}
-    [] p = "t2d" -> {<<a, b>> : a \in 1..5, b \in 1..5}
-    [] p = "t3d" -> {<<2, 3, 3>>, <<3, 2, 4>>, <<2, 2, 5>>}
+    [] p = "t1d" -> {<<n>> : n \in 1..6}
+    [] p = "t2d" -> {<<a, b>> : a \in 1..3, b \in 1..4}
+    [] p = "t3d" -> {<<2, 3, 3>>, <<2, 2, 4>>}
 RechunkCfgs(p) ==
   CASE p \in {"q1d"} -> {<<8, 4, 64, 100>>, <<1, 1, 8, 2>>, <<8, 32, 8, 3>>}
     [] p \in {"q2d"} -> {<<8, 4, 64, 100>>, <<1, 1, 8, 100>>, <<8, 1, 8, 100>>, <<8, 2, 1024, 100>>, <<1, 32, 4, 100>>, <<8, 1, 64, 2>>}
     [] p \in {"t1d", "t2d", "t3d"} ->
-         {<<i, t, l, d>> : i \in {1, 8}, t \in {1, 2, 4, 32}, l \in {8, 64, 1024}, d \in {2, 3, 100}}
+         {<<i, t, l, d>> : i \in {1, 8}, t \in {1, 4, 32}, l \in {8, 64, 1024}, d \in {2, 3, 100}}
 DomRechunk(p) ==
   UNION {{<<old, new, cfg>> : old \in GridsOf(sh), new \in GridsOf(sh), cfg \in RechunkCfgs(p)} : sh \in RechunkShapes(p)}
 
@@ -196,13 +196,13 @@ UnifyDom(p) ==
          \cup {<<Opnd(G2(a, b), <<1, 2>>, 8), Opnd(G2(c, One), <<1, 2>>, 1)>> : a \in Chunkings(4), b \in Chunkings(3), c \in Chunkings(4)}
          \cup {<<Opnd(G1(a), <<1>>, 8), Opnd(G1(b), <<1>>, 8), Opnd(G1(c), <<1>>, 1)>> : a \in Chunkings(5), b \in Chunkings(5), c \in Chunkings(5)}
     [] p = "t" ->
-         UNION {{<<Opnd(G1(a), <<1>>, i1), Opnd(G1(b), <<1>>, i2)>> : a \in Chunkings(n), b \in Chunkings(n), i1 \in {1, 8}, i2 \in {1, 8}} : n \in 1..8}
+         UNION {{<<Opnd(G1(a), <<1>>, i1), Opnd(G1(b), <<1>>, i2)>> : a \in Chunkings(n), b \in Chunkings(n), i1 \in {1, 8}, i2 \in {1, 8}} : n \in 1..7}
          \cup {<<Opnd(G2(a, b), <<1, 2>>, i1), Opnd(G1(c), <<2>>, 8)>> : a \in Chunkings(4), b \in Chunkings(5), c \in Chunkings(5), i1 \in {1, 8}}
          \cup {<<Opnd(G2(a, b), <<1, 2>>, 8), Opnd(G2(c, One), <<1, 2>>, i2)>> : a \in Chunkings(5), b \in Chunkings(4), c \in Chunkings(5), i2 \in {1, 8}}
          \cup {<<Opnd(G2(a, b), <<1, 2>>, 8), Opnd(G2(c, d), <<2, 1>>, 8)>> : a \in Chunkings(4), b \in Chunkings(3), c \in Chunkings(3), d \in Chunkings(4)}
-         \cup {<<Opnd(G1(a), <<1>>, 8), Opnd(G1(b), <<1>>, 8), Opnd(G1(c), <<1>>, 1)>> : a \in Chunkings(6), b \in Chunkings(6), c \in Chunkings(6)}
+         \cup {<<Opnd(G1(a), <<1>>, 8), Opnd(G1(b), <<1>>, 8), Opnd(G1(c), <<1>>, 1)>> : a \in Chunkings(5), b \in Chunkings(5), c \in Chunkings(5)}
 UnifyPolicies == {"auto", "coarse", "refine"}
-UnifyLimits(p) == CASE p = "q" -> {16, 512} [] p = "t" -> {16, 64, 4096}
+UnifyLimits(p) == CASE p = "q" -> {16, 512} [] p = "t" -> {16, 4096}
 DomUnify(p) == {<<ops, pol, lim>> : ops \in UnifyDom(p), pol \in UnifyPolicies, lim \in UnifyLimits(p)}
 
 \* c: [ops (seq of [grid, labels, itemsize]), policy, limit, out |-> [raised, common (seq of <<label, chunks>>), grids (seq)]]
